@@ -125,14 +125,17 @@ pub fn execute<U: Universe>(history: &[U::Op], op: Option<&U::Op>, reverse_finis
     let mut scratch = Ctx::default();
     for h in history {
         if !U::step(&mut r, &mut m, h, &mut scratch) {
-            std::mem::forget(r);
+            U::abandon(r, &mut scratch);
             return Outcome { key: None, model: None, mism: scratch.mism, replay_broken: true };
         }
     }
     let mut cx = Ctx::default();
     if let Some(op) = op {
         if !U::step(&mut r, &mut m, op, &mut cx) {
-            std::mem::forget(r);
+            // release what exists (a crate-global such as a shared static must not carry a leaked
+            // count into the next execution); the model-independent invariants are evaluated once more
+            let mut tail = Ctx::default();
+            U::abandon(r, &mut tail);
             return Outcome { key: None, model: None, mism: cx.mism, replay_broken: false };
         }
     }
